@@ -193,6 +193,9 @@ class Oracle:
                 flt = self.tok[head]["flt"]
                 if flt[0] != 0 and any(self.fmatch(flt, x, self.now) for x in self.unres):
                     self.v("C04", i, "filtered get request %d pending while a matching unreserved item is available" % head)
+        if pget and self.kind == "filter" and "stuck-get" in row.get("extra", ""):
+            self.v("C04", i, "retrieval request %s next in line still pending at the end of the instant although an unreserved "
+                   "item satisfies its filter (the item has matured)" % (min(pget, key=self.key),))
         # token flags agree with the store's own lists
         lst = dict(putq=pput, putres=gput, getq=pget)
         for f, mine in lst.items():
